@@ -34,6 +34,19 @@ PROPERTY = "C05"
 F7_SIG = "F7-eig-segment-N=d+skip"
 F36_SIG = "F36-randomized-eig-rank-deficient"
 
+# harness flags: -O0 -g0 keeps the cold build inside the quick budget; the four UBSan sub-checks that instrument every
+# pointer dereference of the Eigen templates (null, alignment, vptr, object-size) cost ~25 s of compile time and are
+# dropped (ASan still reports wild / null accesses as SEGV; bounds, overflow, shift, float-cast stay on)
+CPP_EXTRA = ["-O0", "-g0", "-fno-sanitize=null,alignment,vptr,object-size"]
+
+# powers of two: D -> 2^e D is exact in binary64, B -> 4^e B, Y -> 2^e Y (Mds_scale_equivariance); kernel tables are
+# scaled by 2^e with e even, so that Y -> 2^(e/2) Y is exact too
+SCALE_DOWN = [-40, -30, -20]
+SCALE_UP = [20, 40]
+SCALE_EXPS = SCALE_DOWN + SCALE_UP
+EPS = 2.0 ** -52
+GS_CUTOFF = 1e-4            # `if (norm < 1e-4)` of eigendecomposition_impl_randomized
+
 TRUSTED = [
     "hand-written model Mds_Model.v tied by differential testing (exact on the integer stream, 1e-12 "
     "relative on the generic stream); not a proof about the C++ text",
@@ -49,11 +62,19 @@ TRUSTED = [
     "Spectral_KyFan.v); that every rank-d symmetric matrix over the reals has that form, and the case of negative "
     "eigenvalues, are cited; the rank argument 'points span <= d dimensions => all but d eigenvalues vanish' is "
     "proved (Mds_recovers_euclidean, exact arithmetic at Qc, any ascending orthonormal eigen-answer)",
-    "the randomized front-end (Gaussian test matrix, Gram-Schmidt, QR solve) is not modelled step by step: "
-    "its algebra is the theorem Mds_randomized_exact_on_captured_range, its behaviour is tested end to end",
+    "the randomized front-end is modelled step by step (Spectral_Randomized.gram_schmidt_thr + Mds_Proof_Randomized: "
+    "test matrix through the upper triangle, modified Gram-Schmidt with its cut-off branch, normal equations of the QR "
+    "solve, small eigenproblem) and proved to meet the dense contract on rank <= k input (Mds_randomized_path); the tie "
+    "of that model to the C++ is on the tolerance stream only (extracted loop run on the test matrix the solver drew, "
+    "norm-oracle answers from a float mirror of the loop in checks/c05.py: span and small-eigenproblem residual 1e-8); "
+    "Householder QR and the Gaussian generator are oracles (contract: least-squares solution; any matrix)",
+    "tolerances of the end-to-end stream: per column, tau*sqrt(lam_a lam_b) + tau_abs*lam_max with tau = 1e-9 (dense) or "
+    "max(1e-9, 1e3*eps*kappa) (randomized; modified Gram-Schmidt loses orthogonality like eps*kappa; measured on /repo "
+    "HEAD <= 45*eps*kappa), tau_abs = 1e-11 / 1e-9: a measured engineering bound, not a theorem",
     "extraction (ExtrOcamlBasic only) + OCaml 4.13.1 + coq/extract/c05_driver.ml (hex rational parsing/printing)",
     "harness/c05.cpp + harness/spectral_common.hpp; g++ ASan/UBSan/_GLIBCXX_ASSERTIONS as memory-safety observer "
-    "(harness built -O0 -g0 to keep the cold build inside the quick budget)",
+    "(harness built -O0 -g0 and without the UBSan sub-checks null, alignment, vptr, object-size to keep the cold "
+    "build inside the quick budget)",
     "C04's Dijkstra_Spec.v definitions (edge, pathn, is_sp, metric_w) are reused for isomap_k_full",
 ]
 
@@ -191,6 +212,8 @@ def run_impl(ctx, exe, lines, per_case_timeout=40):
 
 
 TIMES = {"model": 0.0, "impl": 0.0}
+MODEL_CACHE = {}
+STATS_CACHE = {"hits": 0}
 DEATHS = {"total": 0}       # aborts / hangs of the harness in this run (bounded: each costs a timeout)
 
 
@@ -199,6 +222,15 @@ def run_model(ctx, mexe, lines, workers=4):
     processes (cost-balanced round robin) and the outputs put back in order"""
     if not lines:
         return []
+    # identical lines (scaled copies of an exactly scale-equivariant implementation normalise to the SAME rational
+    # input) are evaluated once
+    todo = [l for l in dict.fromkeys(lines) if l not in MODEL_CACHE]
+    if len(todo) < len(lines):
+        if todo:
+            for l, o in zip(todo, run_model(ctx, mexe, todo, workers)):
+                MODEL_CACHE[l] = o
+        STATS_CACHE["hits"] += len(lines) - len(todo)
+        return [MODEL_CACHE[l] for l in lines]
     t0 = ctx.elapsed()
     order = sorted(range(len(lines)), key=lambda i: -len(lines[i]))
     workers = max(1, min(workers, len(lines) // 4 or 1))
@@ -223,6 +255,10 @@ def run_model(ctx, mexe, lines, workers=4):
                 r.rc, len(out), len(idx), bad, r.err[-300:]))
         for i, o in zip(idx, out):
             outl[i] = o
+    if len(MODEL_CACHE) < 20000:
+        for l, o in zip(lines, outl):
+            if l.startswith("FACTORW") or l.startswith("MDS") or l.startswith("KPCA"):
+                MODEL_CACHE[l] = o
     return outl
 
 
@@ -318,7 +354,7 @@ def gen_e2e(rng, quick, count, nmax):
     """end-to-end cases: dict(meth, solver, n, d, k, table(float rows), rank, euclid, gen)"""
     cases = []
     kinds = ["euclid_eq", "euclid_lt", "euclid_gt", "collinear", "simplex", "offset", "dupes", "noneuclid",
-             "kpca_lin", "kpca_gauss", "kpca_poly", "isomap", "lattice", "noneuclid_neg"]
+             "kpca_lin", "kpca_gauss", "kpca_poly", "isomap", "lattice", "noneuclid_neg", "aniso", "aniso_kpca"]
     for t in range(count):
         kind = kinds[t % len(kinds)]
         big = t % 17 == 5
@@ -342,6 +378,19 @@ def gen_e2e(rng, quick, count, nmax):
             else:
                 d = min(r, n - 1)
             c.update(table=dist_table(P), n=n, d=d, rank=r, euclid=True, points=P)
+        elif kind in ("aniso", "aniso_kpca"):
+            # exact-rank-d configurations whose axes differ by up to 5 decades: the retained eigenvalues of the centred
+            # Gram matrix spread over up to 10 decades (d >= 3: classical and modified Gram-Schmidt differ from the
+            # third column on).  Gaussian coordinates times the axis scale.
+            d = rng.choice([3, 3, 4, 5])
+            n = max(n, d + 2)
+            dec = rng.choice([1.0, 2.5, 4.0, 5.0])
+            ax = [10.0 ** (dec * a / (d - 1)) for a in range(d)]
+            P = [[rng.gauss(0.0, 1.0) * ax[a] for a in range(d)] for _ in range(n)]
+            if kind == "aniso":
+                c.update(table=dist_table(P), n=n, d=d, rank=d, euclid=True, decades=2 * dec)
+            else:
+                c.update(table=gram_table(P), n=n, d=d, rank=d, meth="kpca", decades=2 * dec)
         elif kind == "collinear":
             xs = [rng.randint(-20, 20) for _ in range(n)]
             T = [[float(abs(a - b)) for b in xs] for a in xs]
@@ -443,8 +492,11 @@ def gen_exact(rng, count):
                 for j in range(n):
                     T[i][j] = rng.randint(0, 12)
             sym = False
-        cases.append({"stream": "exact", "cmd": kind, "n": n, "table": [[float(x) for x in r] for r in T],
-                      "sym": sym, "gen": "exact_%s_%d" % (kind, sub)})
+        # every third case on a dyadic tiny / huge scale (2^e times the integer table: every operation of the
+        # routines stays exact in binary64, so the comparison with the Qc model is still bit for bit)
+        e = SCALE_EXPS[(t // 3) % len(SCALE_EXPS)] if t % 3 == 1 else 0
+        cases.append({"stream": "exact", "cmd": kind, "n": n, "table": [[float(x) * 2.0 ** e for x in r] for r in T],
+                      "sym": sym, "gen": "exact_%s_%d%s" % (kind, sub, "_2^%d" % e if e else "")})
     return cases
 
 
@@ -473,6 +525,70 @@ def gen_tri(rng, count):
     return cases
 
 
+def b_exp(c):
+    """exponent of the power of two by which the matrix handed to the solver is scaled in a scaled copy"""
+    e = c.get("scale_exp", 0)
+    return e if c["meth"] == "kpca" else 2 * e
+
+
+def scaled_copy(c, e):
+    """the same request on the table 2^e * table (exact)"""
+    cc = {k: v for k, v in c.items() if not k.startswith("_") and k != "points"}
+    f = 2.0 ** e
+    cc["table"] = [[x * f for x in row] for row in c["table"]]
+    cc["scale_exp"] = e
+    cc["gen"] = c["gen"].split("@")[0] + "@2^%d" % e
+    cc["_base"] = c
+    return cc
+
+
+def unscaled(c):
+    e = c.get("scale_exp", 0)
+    cc = {k: v for k, v in c.items() if not k.startswith("_") and k not in ("points", "scale_exp")}
+    f = 2.0 ** (-e)
+    cc["table"] = [[x * f for x in row] for row in c["table"]]
+    cc["gen"] = c.get("gen", "?").split("@")[0] + "@base"
+    return cc
+
+
+def plan_scaled(chunk, counter, quick):
+    """scaled copies of the (already evaluated) base cases of a chunk.  quick: one down-scale and one up-scale per
+    case, cycling so that every generator sees all five; thorough: all five.  Randomized solver: its Gram-Schmidt loop
+    has an ABSOLUTE cut-off (norm < 1e-4: known finding F36), so a down-scale is admissible only while the smallest
+    replayed Gram-Schmidt norm stays above it; an inadmissible down-scale is replaced by the most negative admissible
+    exponent (a boundary-aimed case just above the cut-off)."""
+    out = []
+    for c in chunk:
+        t = counter[0]
+        counter[0] += 1
+        res = c.get("_res")
+        if res is None or res.get("status") != "ok":
+            continue
+        exps = SCALE_EXPS if not quick else [SCALE_DOWN[t % len(SCALE_DOWN)], SCALE_UP[t % len(SCALE_UP)]]
+        step = 2 if c["meth"] == "kpca" else 1
+        chosen = []
+        for e in exps:
+            if c["solver"] == "randomized" and e < 0:
+                smin = res.get("smin")
+                if not smin or smin <= 0:
+                    continue
+                # matrix scale 2^(b_exp): need smin * 2^bexp >= 4 * cut-off
+                per = 1 if c["meth"] == "kpca" else 2
+                lim = math.log2(4 * GS_CUTOFF / smin) / per           # e >= lim
+                emin = int(math.ceil(lim))
+                if step == 2 and emin % 2:
+                    emin += 1
+                if e < emin:
+                    e = emin
+                if e >= 0:
+                    continue
+            if e not in chosen:
+                chosen.append(e)
+        for e in chosen:
+            out.append(scaled_copy(c, e))
+    return out
+
+
 def case_key(c):
     return hashlib.sha1(json.dumps([c.get("stream"), c.get("cmd"), c.get("meth"), c.get("solver"), c.get("n"),
                                     c.get("d"), c.get("k"), hexrow(sum(c["table"], []))]).encode()).hexdigest()
@@ -480,7 +596,7 @@ def case_key(c):
 
 def slim(c):
     """JSON-serialisable replay form of a case (exact numbers as hex floats)"""
-    out = {k: v for k, v in c.items() if k not in ("table", "points")}
+    out = {k: v for k, v in c.items() if k not in ("table", "points") and not k.startswith("_")}
     out["table"] = [hexrow(r) for r in c["table"]]
     return out
 
@@ -644,10 +760,65 @@ def numeric_rank(vals, lmax):
     return sum(1 for v in vals if abs(v) > 1e-9 * max(lmax, 1e-300))
 
 
+def gs_replay(Bf, O, n, k):
+    """float mirror of the loop of eigendecomposition_impl_randomized as modelled by Spectral_Randomized.gram_schmidt_thr
+    (column by column, sequential subtraction, norm, cut-off branch).  Returns (norms, fired, columns)."""
+    Y0 = matmul(Bf, O)
+    cols = [[Y0[t][c] for t in range(n)] for c in range(k)]
+    norms, fired = [], False
+    for i in range(k):
+        col = cols[i]
+        for j in range(i):
+            r = math.fsum(x * y for x, y in zip(col, cols[j]))
+            col = [x - r * y for x, y in zip(col, cols[j])]
+        nr = math.sqrt(math.fsum(x * x for x in col))
+        norms.append(nr)
+        if not (nr >= GS_CUTOFF):
+            fired = True
+            break
+        inv = 1.0 / nr
+        cols[i] = [x * inv for x in col]
+    return norms, fired, cols
+
+
+def factor_tolerances(lamn, solver):
+    """per-entry tolerances of the factor specification, in units where the top eigenvalue lies in [1,4).
+    lamn: the d retained reference eigenvalues (ascending, clamped at 0), normalised.
+      T1_ab = tau * sqrt(lam_a lam_b) + tau_abs * lam_max      (Y^T Y = diag lam)
+      T2_c  = tau * lam_max * sqrt(lam_c) + tau_abs * lam_max^1.5   (B Y = Y diag lam)
+    and never looser than the uniform tolerance of round 2 (4e-8 dense, 4e-6 randomized).
+    dense: tau = 1e-9 (measured 1e-15), randomized: tau = max(1e-9, 1e3 * eps * kappa), kappa = lam_max / smallest
+    retained eigenvalue: modified Gram-Schmidt loses orthogonality like eps * kappa (measured on /repo HEAD: at most
+    45 * eps * kappa over 2000 anisotropic inputs with kappa up to 1e11); classical Gram-Schmidt loses eps * kappa^2."""
+    d = len(lamn)
+    lmax = max(lamn + [0.0])
+    tau_abs = 1e-11 if solver == "dense" else 1e-9
+    uni = 4e-8 if solver == "dense" else 4e-6
+    if solver == "dense":
+        tau = 1e-9
+    else:
+        pos = [x for x in lamn if x > tau_abs * lmax]
+        kappa = (lmax / min(pos)) if pos else 1.0
+        tau = max(1e-9, 1e3 * EPS * kappa)
+    m = [math.sqrt(max(x, 0.0)) for x in lamn]
+    T1 = [[min(uni, tau * m[a] * m[b] + tau_abs * lmax) for b in range(d)] for a in range(d)]
+    T2 = [min(uni, tau * lmax * m[c] + tau_abs * lmax ** 1.5) for c in range(d)]
+    return T1, T2, tau
+
+
 def eval_e2e(ctx, exe, mexe, cases, tab, stats, report=True):
-    """public API end to end.  Returns list of booleans (case violated the spec)."""
+    """public API end to end.  Returns list of booleans (case violated the spec).  Leaves c["_res"] on every case
+    (status, embedding, replayed Gram-Schmidt norms) for the scaled copies that follow."""
     if not cases:
         return []
+    # a scaled copy needs its base (replays, shrunk candidates): evaluate the base first
+    pre = []
+    for c in cases:
+        if c.get("scale_exp") and not (c.get("_base") is not None and "_res" in c["_base"]):
+            c["_base"] = unscaled(c)
+            pre.append(c["_base"])
+    if pre:
+        eval_e2e(ctx, exe, mexe, pre, tab, stats, report=report)
     lines = []
     for c in cases:
         lines.append("FULL %s %s %d %d %d %d %s" % (c["meth"], c["solver"], c["seed"], c["n"], c["d"], c["k"],
@@ -671,9 +842,14 @@ def eval_e2e(ctx, exe, mexe, cases, tab, stats, report=True):
 
     for i, (c, r) in enumerate(zip(cases, impl)):
         n, d = c["n"], c["d"]
+        c["_res"] = {"status": "skipped"}
         if r.skipped:
             continue
         stats["e2e"] += 1
+        scaled = bool(c.get("scale_exp"))
+        if scaled:
+            stats["e2e_scaled"] = stats.get("e2e_scaled", 0) + 1
+        c["_res"] = {"status": "bad"}
         if r.crashed:
             viol(i, "tapkee::embed (or the routines it calls) aborts / hangs: " + str(r.why)[:600])
             if r.why == "timeout":
@@ -706,8 +882,9 @@ def eval_e2e(ctx, exe, mexe, cases, tab, stats, report=True):
         if c["meth"] == "isomap":
             geo2 = r.mat("geo2")
             T = c["table"]
+            tmax2 = max(x * x for row in T for x in row)
             okg = geo2 is not None and all(
-                geo2[2][a][b] is not None and abs(float(geo2[2][a][b]) - T[a][b] ** 2) <= 1e-11 * max(1.0, T[a][b] ** 2)
+                geo2[2][a][b] is not None and abs(float(geo2[2][a][b]) - T[a][b] ** 2) <= 1e-11 * max(T[a][b] ** 2, 1e-9 * tmax2)
                 for a in range(n) for b in range(n))
             if not okg:
                 viol(i, "Isomap with k = N-1 on a metric table: the (symmetrised, squared) geodesics are not the "
@@ -735,10 +912,27 @@ def eval_e2e(ctx, exe, mexe, cases, tab, stats, report=True):
             ctx.mismatch(slim(c), "oracle contract: std::sqrt answer s does not satisfy s*s = max(lambda,0) to 4 ulp")
         rank = numeric_rank(lam, lmax)
         top = [max(x, 0.0) for x in lam[n - d:]]            # the d largest, ascending, clamped
+        # ---- randomized front-end: replay the Gram-Schmidt loop of the model on the test matrix the solver drew
+        fired, ambiguous, smin = None, False, None
+        if c["solver"] == "randomized":
+            Om = r.mat("omega")
+            Bi = [[fl(x) if x is not None else float("nan") for x in row] for row in B[2]]
+            if Om is not None and (Om[0], Om[1]) == (n, d) and all(x is not None for row in Om[2] for x in row):
+                norms, fired, _ = gs_replay(Bi, [[fl(x) for x in row] for row in Om[2]], n, d)
+                smin = min(norms)
+                ambiguous = abs(smin - GS_CUTOFF) <= 1e-6 * GS_CUTOFF
+                stats["gs_replays"] = stats.get("gs_replays", 0) + 1
+                if fired:
+                    stats["gs_cutoff_fired"] = stats.get("gs_cutoff_fired", 0) + 1
+            else:
+                ctx.mismatch(slim(c), "harness: the Gaussian test matrix of the randomized solver is missing / malformed")
+        c["_res"] = {"status": "bad", "smin": smin, "fired": fired, "lmax": lmax}
         # ---- the embedding
         if r.X is not None:
-            if c["solver"] == "randomized" and "eigendecomposition" in r.X and rank < d:
-                viol(i, "randomized solver throws (%s) on an input of rank %d < target_dimension %d" % (r.X, rank, d),
+            if c["solver"] == "randomized" and "eigendecomposition" in r.X and (fired or ambiguous or (fired is None and rank < d)):
+                c["_res"]["status"] = "f36"
+                viol(i, "randomized solver throws (%s): the absolute cut-off `norm < 1e-4` of its Gram-Schmidt loop fired "
+                        "(replayed norms: smallest %.3g; numerical rank %d, target_dimension %d)" % (r.X, smin or 0.0, rank, d),
                      sig=F36_SIG)
             else:
                 viol(i, "tapkee::embed throws on a valid request: %s" % r.X)
@@ -748,48 +942,57 @@ def eval_e2e(ctx, exe, mexe, cases, tab, stats, report=True):
             viol(i, "embedding is missing or not N x target_dimension")
             continue
         if any(x is None for row in E[2] for x in row):
-            if c["solver"] == "randomized" and rank < d:
+            if c["solver"] == "randomized" and (fired or ambiguous or (fired is None and rank < d)):
                 # same root cause as the throw (0 * (1/0) in the Gram-Schmidt loop): with a 1 x 1 small problem
                 # Eigen reports Success on a NaN matrix and the NaN reaches the embedding
-                viol(i, "randomized solver returns NaN on an input of rank %d < target_dimension %d" % (rank, d),
+                c["_res"]["status"] = "f36"
+                viol(i, "randomized solver returns NaN: the absolute cut-off `norm < 1e-4` of its Gram-Schmidt loop fired "
+                        "(smallest replayed norm %.3g; numerical rank %d, target_dimension %d)" % (smin or 0.0, rank, d),
                      sig=F36_SIG)
             else:
                 viol(i, "embedding contains NaN/inf (retained eigenvalues %s)" % top)
             continue
         Yq = E[2]
+        Yf = [[fl(x) for x in row] for row in Yq]
+        c["_res"].update(status="ok", Y=Yf, lam=lam)
         # canonical column order: ascending squared norm (the property does not fix the order)
         norms = [sum(Yq[a][cc] ** 2 for a in range(n)) for cc in range(d)]
         order = sorted(range(d), key=lambda cc: norms[cc])
         Yq = [[row[cc] for cc in order] for row in Yq]
-        # power-of-4 scaling so that the top eigenvalue is in [1,4): one tolerance fits both clauses
+        # power-of-4 scaling so that the top eigenvalue is in [1,4): tolerances are RELATIVE to |B|
         k4 = 0
         if lmax > 0:
-            k4 = int(math.floor(math.log(lmax, 4)))
+            k4 = int(math.floor(math.log2(lmax) / 2.0))
         s4 = Fraction(4) ** k4
         s2 = Fraction(2) ** k4
         tol = Fraction(1, 10 ** 8) if c["solver"] == "dense" else Fraction(1, 10 ** 6)
         lamq = [Fraction(x) / s4 for x in top]
-        line = "FACTOR %d %d %s %s %s %s" % (
-            n, d, qstr(tol * 4),
+        T1, T2, tau = factor_tolerances([float(x) for x in lamq], c["solver"])
+        line = "FACTORW %d %d %s %s %s %s %s" % (
+            n, d,
             " ".join(qstr(x / s4) for row in Bm for x in row),
             " ".join(qstr(x / s2) for row in Yq for x in row),
-            " ".join(qstr(x) for x in lamq))
+            " ".join(qstr(x) for x in lamq),
+            " ".join(qstr(Fraction(x)) for row in T1 for x in row),
+            " ".join(qstr(Fraction(x)) for x in T2))
         second.append((i, "factor", line))
-        if c["euclid"] and c["rank"] is not None and c["rank"] <= d and c["meth"] in ("mds", "isomap"):
-            T = c["table"]
-            d2 = [[Fraction(T[a][b]) ** 2 for b in range(n)] for a in range(n)]
-            sd = max([x for row in d2 for x in row] + [Fraction(1)])
-            line = "DIST %d %d %s %s %s" % (
-                n, d, qstr(tol * sd), " ".join(qstr(x) for row in Yq for x in row),
-                " ".join(qstr(x) for row in d2 for x in row))
-            second.append((i, "dist", line))
-        # model embedding with the oracle answers (dense front-end only)
-        if c["solver"] == "dense" and site is not None:
-            line = "EMBED %d %d %d 0 %s %s %s" % (
-                site, n, d, " ".join(qstr(x) for row in refvecs[2] for x in row),
-                " ".join(qstr(x[0]) for x in refvals[2]), " ".join(qstr(x[0]) for x in refsqrt[2]))
-            second.append((i, "embed", line))
-        ctxinfo[i] = (lam, V, [[fl(x) for x in row] for row in E[2]], top, lmax)
+        c["_res"]["tau"] = tau
+        if not scaled:
+            if c["euclid"] and c["rank"] is not None and c["rank"] <= d and c["meth"] in ("mds", "isomap"):
+                T = c["table"]
+                d2 = [[Fraction(T[a][b]) ** 2 for b in range(n)] for a in range(n)]
+                sd = max([x for row in d2 for x in row] + [Fraction(1, 10 ** 300)])
+                line = "DIST %d %d %s %s %s" % (
+                    n, d, qstr(tol * sd), " ".join(qstr(x) for row in Yq for x in row),
+                    " ".join(qstr(x) for row in d2 for x in row))
+                second.append((i, "dist", line))
+            # model embedding with the oracle answers (dense front-end only)
+            if c["solver"] == "dense" and site is not None:
+                line = "EMBED %d %d %d 0 %s %s %s" % (
+                    site, n, d, " ".join(qstr(x) for row in refvecs[2] for x in row),
+                    " ".join(qstr(x[0]) for x in refvals[2]), " ".join(qstr(x[0]) for x in refsqrt[2]))
+                second.append((i, "embed", line))
+        ctxinfo[i] = (lam, V, Yf, top, lmax)
     out = run_model(ctx, mexe, [x[2] for x in second])
     for (i, kind, _), o in zip(second, out):
         c = cases[i]
@@ -799,8 +1002,10 @@ def eval_e2e(ctx, exe, mexe, cases, tab, stats, report=True):
             stats["spec_factor_checks"] += 1
             if o != "B 1":
                 viol(i, "embedding violates the factor specification (Y^T Y = diag(lambda), B Y = Y diag(lambda), lambda = the "
-                        "%d largest eigenvalues of the centred matrix, clamped at 0 = %s): column squared norms %s" % (
-                            d, top, sorted(sum(Yf[a][cc] ** 2 for a in range(n)) for cc in range(d))))
+                        "%d largest eigenvalues of the centred matrix, clamped at 0 = %s; per-column relative tolerance "
+                        "%.2g): column squared norms %s, largest |<y_a,y_b>|/(|y_a||y_b|) %.3g" % (
+                            d, top, c["_res"].get("tau", 0.0),
+                            sorted(sum(Yf[a][cc] ** 2 for a in range(n)) for cc in range(d)), max_cosine(Yf, n, d)))
         elif kind == "dist":
             stats["spec_dist_checks"] += 1
             if o != "B 1":
@@ -827,9 +1032,42 @@ def eval_e2e(ctx, exe, mexe, cases, tab, stats, report=True):
                     ctx.mismatch(slim(c), "embedding column %d differs (beyond sign) from the model's "
                                  "V[:, N-d+%d] * sqrt(max(lambda,0)) computed from the replicated oracle call" % (cc, cc))
                     break
+    # scale equivariance (Mds_scale_equivariance): Y(2^e D) = 2^e Y(D), checked to rounding on the Gram matrix
+    for i, c in enumerate(cases):
+        if not c.get("scale_exp") or i not in ctxinfo or violated[i]:
+            continue
+        base = c.get("_base")
+        bres = base.get("_res") if base is not None else None
+        if not bres or bres.get("status") != "ok":
+            continue
+        n, d = c["n"], c["d"]
+        lam, V, Yf, top, lmax = ctxinfo[i]
+        Yb = bres["Y"]
+        f2 = 2.0 ** b_exp(c)                       # Gram matrices scale by 2^bexp
+        tau = max(1e-9, c["_res"].get("tau", 0.0), bres.get("tau", 0.0))
+        ns = sorted(sum(Yf[a][cc] ** 2 for a in range(n)) for cc in range(d))
+        nb = sorted(sum(Yb[a][cc] ** 2 for a in range(n)) * f2 for cc in range(d))
+        ref = max(nb + [1e-300])
+        stats["equivariance_checks"] = stats.get("equivariance_checks", 0) + 1
+        bad = None
+        for x, y in zip(ns, nb):
+            if not (abs(x - y) <= tau * math.sqrt(max(x, y) * ref) + 1e-11 * ref):
+                bad = "column squared norms %s vs 2^%d * %s" % (ns, b_exp(c), [x / f2 for x in nb])
+                break
+        cut = d < n and lam[n - d] - lam[n - d - 1] <= 1e-6 * max(lmax, 1e-300)
+        if bad is None and not cut:
+            Gs = matmul(Yf, transpose(Yf))
+            Gb = matmul(Yb, transpose(Yb))
+            gref = max(maxabs(Gb) * f2, 1e-300)
+            worst = max(abs(Gs[a][b] - Gb[a][b] * f2) for a in range(n) for b in range(n))
+            if not (worst <= max(tau, 1e-9) * gref):
+                bad = "Gram matrices differ by %.3g relative to the largest entry" % (worst / gref)
+        if bad:
+            viol(i, "scale equivariance: the embedding of 2^%d * (table) is not 2^%s * (embedding of the table) -- %s" % (
+                c["scale_exp"], b_exp(c) / 2, bad))
     # projector comparison inside clusters (floats; labelled test)
     for i, c in enumerate(cases):
-        if i not in ctxinfo or violated[i]:
+        if i not in ctxinfo or violated[i] or c.get("scale_exp"):
             continue
         n, d = c["n"], c["d"]
         lam, V, Yf, top, lmax = ctxinfo[i]
@@ -847,7 +1085,7 @@ def eval_e2e(ctx, exe, mexe, cases, tab, stats, report=True):
         clusters.append(cur)
         norms = [sum(Yf[a][cc] ** 2 for a in range(n)) for cc in range(d)]
         order = sorted(range(d), key=lambda cc: norms[cc])
-        ptol = 1e-5 if c["solver"] == "dense" else 1e-3
+        ptol = 1e-5 if c["solver"] == "dense" else max(1e-3, 10 * c["_res"].get("tau", 0.0))
         for cl in clusters:
             if lam[cl[0]] <= 1e-6 * lmax:
                 continue                      # zero / negative eigenvalues: column is ~0, no direction
@@ -869,6 +1107,16 @@ def eval_e2e(ctx, exe, mexe, cases, tab, stats, report=True):
                     break
             stats["projector_checks"] += 1
     return violated
+
+
+def max_cosine(Yf, n, d):
+    nn = [math.sqrt(sum(Yf[a][c] ** 2 for a in range(n))) for c in range(d)]
+    w = 0.0
+    for a in range(d):
+        for b in range(a + 1, d):
+            if nn[a] > 0 and nn[b] > 0:
+                w = max(w, abs(math.fsum(Yf[t][a] * Yf[t][b] for t in range(n))) / (nn[a] * nn[b]))
+    return w
 
 
 def eval_isomap_vs_mds(ctx, exe, cases, stats):
@@ -937,10 +1185,10 @@ def shrink_e2e(ctx, exe, mexe, tab, c):
         progressed = False
         for drop in range(n - 1, -1, -1):
             T = [[x for j, x in enumerate(row) if j != drop] for i, row in enumerate(best["table"]) if i != drop]
-            cand = dict(best, n=n - 1, table=T)
+            cand = {k: v for k, v in best.items() if not k.startswith("_") and k != "points"}
+            cand.update(n=n - 1, table=T)
             if cand["meth"] == "isomap":
                 cand["k"] = n - 2
-            cand.pop("points", None)
             if eval_e2e(ctx, exe, mexe, [cand], tab, stats, report=False)[0]:
                 best = cand
                 progressed = True
@@ -957,14 +1205,95 @@ def new_stats():
 
 
 # ----------------------------------------------------------------------------- driver
-def evaluate_all(ctx, exe, mexe, tab, cases, stats, shrink=True):
+def eval_rgs(ctx, exe, mexe, cases, stats):
+    """step tie of the randomized front-end (tolerance stream).  The real call
+    tapkee_internal::eigendecomposition(Randomized, LargestEigenvalues, A, k) against the EXTRACTED model of the loop
+    (Mds_Exec_Wave2.c05_rgs = rand_basis: test matrix through the upper triangle, Gram-Schmidt with its cut-off
+    branch; c05_rsmall = Y^T (A Y)) run on the test matrix the solver drew and on the norm-oracle answers:
+      span: (returned vectors)(returned vectors)^T = Y_model Y_model^T;
+      small problem: (Y_m^T A Y_m) W = W diag(returned values), W = Y_m^T (returned vectors), values ascending.
+    A is any symmetric integer matrix (full rank: outside the property's domain, so disagreements are correspondence
+    failures, which start the search phase, not violations)."""
+    if not cases:
+        return 0
+    impl = run_impl(ctx, exe, ["TRI randomized largest %d %d %d %s" % (c["seed"], c["n"], c["d"], tab_tokens(c["table"]))
+                               for c in cases])
+    mlines, idx = [], []
+    for i, (c, r) in enumerate(zip(cases, impl)):
+        n, k = c["n"], c["d"]
+        if r.skipped:
+            continue
+        Om = r.mat("omega")
+        if r.crashed or Om is None or (Om[0], Om[1]) != (n, k) or any(x is None for row in Om[2] for x in row):
+            ctx.mismatch(slim(c), "randomized step tie: no test matrix from the harness (%s)" % (r.why or r.X))
+            continue
+        Af = c["table"]
+        Of = [[fl(x) for x in row] for row in Om[2]]
+        norms, fired, _ = gs_replay(Af, Of, n, k)
+        if fired or min(norms) < 10 * GS_CUTOFF:
+            stats["rgs_skipped_cutoff"] = stats.get("rgs_skipped_cutoff", 0) + 1
+            continue
+        mlines.append("RGS %d %d %s %s %s %s" % (n, k, qstr(Fraction(GS_CUTOFF)), tab_q(Af),
+                                                  " ".join(qstr(x) for row in Om[2] for x in row),
+                                                  " ".join(qstr(Fraction(x)) for x in norms)))
+        idx.append(i)
+    Ym = [model_matrix(o) for o in run_model(ctx, mexe, mlines)]
+    small = run_model(ctx, mexe, ["RSMALL %d %d %s %s" % (cases[i]["n"], cases[i]["d"], tab_q(cases[i]["table"]),
+                                                           " ".join(qstr(x) for row in Y for x in row))
+                                  for i, Y in zip(idx, Ym)])
+    for i, Y, sm in zip(idx, Ym, small):
+        c, r = cases[i], impl[i]
+        n, k = c["n"], c["d"]
+        stats["rgs_ties"] = stats.get("rgs_ties", 0) + 1
+        vecs, vals = r.mat("vecs"), r.mat("vals")
+        if r.X is not None or vecs is None or vals is None or (vecs[0], vecs[1]) != (n, k) or vals[0] != k \
+                or any(x is None for row in vecs[2] for x in row) or any(x[0] is None for x in vals[2]):
+            ctx.mismatch(slim(c), "randomized step tie: the real call throws / returns NaN although no Gram-Schmidt norm "
+                         "is near the cut-off (%s)" % r.X)
+            continue
+        Yf = [[fl(x) for x in row] for row in Y]
+        Vf = [[fl(x) for x in row] for row in vecs[2]]
+        th = [fl(x[0]) for x in vals[2]]
+        Pm = matmul(Yf, transpose(Yf))
+        Pi = matmul(Vf, transpose(Vf))
+        perr = max(abs(Pm[a][b] - Pi[a][b]) for a in range(n) for b in range(n))
+        Bs = [[fl(x) for x in row] for row in model_matrix(sm)]
+        W = matmul(transpose(Yf), Vf)
+        BW = matmul(Bs, W)
+        sc = max(maxabs(Bs), 1e-300)
+        rerr = max(abs(BW[a][b] - W[a][b] * th[b]) for a in range(k) for b in range(k)) / sc
+        asc = all(th[a] <= th[a + 1] + 1e-12 * sc for a in range(k - 1))
+        if perr > 1e-8 or rerr > 1e-8 or not asc:
+            ctx.mismatch(slim(c), "randomized step tie: the real front-end disagrees with the extracted model of its loop: "
+                         "span error %.3g, small-eigenproblem residual %.3g, ascending %s" % (perr, rerr, asc))
+    return len(cases)
+
+
+def gen_rgs(rng, count):
+    cases = []
+    for t in range(count):
+        n = rng.choice([3, 4, 5, 6])
+        k = rng.choice([1, 2, 2, 3, 3])
+        k = min(k, n - 1)
+        T = [[0.0] * n for _ in range(n)]
+        for i in range(n):
+            for j in range(i, n):
+                T[i][j] = T[j][i] = float(rng.randint(-9, 9))
+        cases.append({"stream": "rgs", "n": n, "d": k, "table": T, "seed": rng.randrange(1, 10 ** 6),
+                      "gen": "randomized_step_tie"})
+    return cases
+
+
+def evaluate_all(ctx, exe, mexe, tab, cases, stats, shrink=True, scale=True):
+    """returns (number of evaluations, the scaled copies that were generated on the way)"""
     n = 0
+    extra = []
     n += eval_matrix_stage(ctx, exe, mexe, [c for c in cases if c["stream"] in ("exact", "generic")], stats)
     n += eval_triangles(ctx, exe, mexe, [c for c in cases if c["stream"] == "tri"], stats)
+    n += eval_rgs(ctx, exe, mexe, [c for c in cases if c["stream"] == "rgs"], stats)
     e2e = [c for c in cases if c["stream"] == "e2e"]
-    for i in range(0, len(e2e), 60):
-        chunk = e2e[i:i + 60]
-        before = len(ctx._violations)
+
+    def run_chunk(chunk):
         violated = eval_e2e(ctx, exe, mexe, chunk, tab, stats, report=not shrink)
         if shrink:
             done = 0
@@ -975,20 +1304,48 @@ def evaluate_all(ctx, exe, mexe, tab, cases, stats, shrink=True):
                     if not known and v is True and done < 2:
                         small = shrink_e2e(ctx, exe, mexe, tab, c)
                         done += 1
+                    keep = c.get("_res")
                     eval_e2e(ctx, exe, mexe, [small], tab, new_stats(), report=True)
-        n += len(chunk)
-    n += eval_isomap_vs_mds(ctx, exe, e2e, stats)
-    return n
+                    if small is c and keep is not None:
+                        c["_res"] = keep
+        return len(chunk)
+
+    base = [c for c in e2e if not c.get("scale_exp")]
+    given = [c for c in e2e if c.get("scale_exp")]           # replays / corpus entries that are scaled copies
+    counter = [0]
+    for i in range(0, len(base), 60):
+        chunk = base[i:i + 60]
+        n += run_chunk(chunk)
+        if scale:
+            sc = plan_scaled(chunk, counter, ctx.quick)
+            extra += sc
+            for j in range(0, len(sc), 120):
+                n += run_chunk(sc[j:j + 120])
+    for i in range(0, len(given), 60):
+        n += run_chunk(given[i:i + 60])
+    n += eval_isomap_vs_mds(ctx, exe, base, stats)
+    return n, extra
 
 
 def run(ctx):
     rng = ctx.rng
     quick = ctx.quick
-    exe = ctx.cpp("harness/c05.cpp", extra=["-O0", "-g0"])
-    t_cpp = ctx.elapsed()
-    tab, coq, mexe = build_all(ctx)
+    # the harness TU (70-90 s of g++) is built in a thread while the translator, the proofs and the extraction run
+    from concurrent.futures import ThreadPoolExecutor
+    t_cpp = [0.0]
+
+    def build_harness():
+        exe_ = ctx.cpp("harness/c05.cpp", extra=CPP_EXTRA)
+        t_cpp[0] = ctx.elapsed()
+        return exe_
+
+    with ThreadPoolExecutor(max_workers=1) as pool:
+        fut = pool.submit(build_harness)
+        tab, coq, mexe = build_all(ctx)
+        t_ext = ctx.elapsed()
+        exe = fut.result()
+    ctx.note("wall: harness build done at %.0fs (in parallel), translator + coq + extraction done at %.0fs" % (t_cpp[0], t_ext))
     t_ext = ctx.elapsed()
-    ctx.note("wall: harness build %.0fs, translator + coq + extraction %.0fs" % (t_cpp, t_ext - t_cpp))
     stats = new_stats()
     cases = []
     for name, c in ctx.corpus():
@@ -998,8 +1355,10 @@ def run(ctx):
     cases += gen_exact(rng, 120 if quick else 1200)
     cases += gen_generic_matrix(rng, 30 if quick else 300)
     cases += gen_tri(rng, 12 if quick else 100)
-    cases += gen_e2e(rng, quick, 98 if quick else 448, 24 if quick else 48)
-    n = evaluate_all(ctx, exe, mexe, tab, cases, stats)
+    cases += gen_rgs(rng, 10 if quick else 80)
+    cases += gen_e2e(rng, quick, 96 if quick else 448, 24 if quick else 48)
+    n, scaled = evaluate_all(ctx, exe, mexe, tab, cases, stats)
+    cases += scaled
     ctx.note("wall: cases %.0fs (extracted model %.0fs, harness %.0fs)" % (ctx.elapsed() - t_ext, TIMES["model"], TIMES["impl"]))
     if tab is not None:
         probe_f7(ctx, exe, mexe, tab, stats)
@@ -1021,35 +1380,48 @@ def run(ctx):
         ctx.note("search phase: proof / translator / correspondence no longer checks; looking for a failing input")
         srng = vlib.random.Random(ctx.seed + 1)
         extra = gen_e2e(srng, False, 400 if quick else 2000, 24) + gen_exact(srng, 300) + small_exhaustive()
-        n += evaluate_all(ctx, exe, mexe, tab, extra, stats)
-        cases += extra
+        extra += gen_rgs(srng, 40)
+        n2, scaled2 = evaluate_all(ctx, exe, mexe, tab, extra, stats)
+        n += n2
+        cases += extra + scaled2
     hist = {}
     for c in cases:
-        key = c["gen"].split(":")[0] + ("/" + c["solver"] if "solver" in c else "")
+        key = c["gen"].split(":")[0].split("@")[0] + ("/" + c["solver"] if "solver" in c else "") + \
+            ("@2^%d" % c["scale_exp"] if c.get("scale_exp") else "")
         hist[key] = hist.get(key, 0) + 1
     sizes = {}
     for c in cases:
         sizes["N=%d" % c["n"]] = sizes.get("N=%d" % c["n"], 0) + 1
     distinct = {case_key(c) for c in cases if (c["stream"] == "e2e" and c["n"] >= 3) or
-                (c["stream"] in ("exact", "generic") and c["n"] >= 4) or c["stream"] == "tri"}
+                (c["stream"] in ("exact", "generic") and c["n"] >= 4) or c["stream"] in ("tri", "rgs")}
     samples = [slim(c) for c in (cases[:1] + [c for c in cases if c["stream"] == "e2e"][:3]) if c["n"] <= 8][:4]
     ctx.finish(
         evaluations=n, distinct_nontrivial=len(distinct),
         rule="cases = corpus + exact stream (integer tables, N in {2,4,8,16}: symmetric, 1-D Euclidean, garbage lower "
              "triangle, asymmetric centerMatrix input) + generic matrix stream + triangle probes + end-to-end public-API "
              "cases (Euclidean of rank <,=,> d; collinear; regular simplex; large offset; duplicated samples; non-Euclidean; "
-             "linear/Gaussian/polynomial kernels; Isomap k=N-1; dense, and randomized when rank <= d).  non-trivial = "
-             "end-to-end with N >= 3, matrix stage with N >= 4, or a triangle probe; distinct by hash of (stream, method, "
-             "solver, N, d, k, table).  Every end-to-end output goes through the extracted factor_spec decision procedure.",
+             "linear/Gaussian/polynomial kernels; Isomap k=N-1; anisotropic exact-rank-d configurations with d >= 3 and "
+             "retained spectra over up to 10 decades (MDS and linear Kernel PCA); dense, and randomized when rank <= d) + "
+             "SCALED COPIES of every end-to-end case that returned an embedding (table times 2^e, e in {-40,-30,-20,20,40}: "
+             "quick tier one down- and one up-scale per case, cycling; thorough all five; the randomized solver only down "
+             "to the scale where its replayed Gram-Schmidt norms stay above its absolute 1e-4 cut-off, known finding F36, "
+             "with a boundary case just above it) + exact stream cases on dyadic tiny/huge scales + randomized step-tie "
+             "cases.  non-trivial = end-to-end with N >= 3, matrix stage with N >= 4, a triangle probe or a step tie; "
+             "distinct by hash of (stream, method, solver, N, d, k, table).  Every end-to-end output goes through the "
+             "extracted factor_spec decision procedure with per-column relative tolerances (relative to |B|, never looser "
+             "than 4e-8 / 4e-6 of the top eigenvalue); every scaled copy is also compared with 2^e times its base.",
         samples=samples,
         histogram={"generators": hist, "sizes": sizes, "stats": stats},
         trusted_base=TRUSTED,
         assumptions=["distance tables are symmetric with zero diagonal, kernel tables symmetric positive semi-definite "
                      "(the callbacks are only asked for i <= j)",
-                     "1 <= target_dimension < N; randomized solver only on inputs of rank <= target_dimension",
+                     "1 <= target_dimension < N; randomized solver only on inputs of rank <= target_dimension and only on "
+                     "scales where no replayed Gram-Schmidt norm falls under its absolute cut-off 1e-4 (known finding F36: "
+                     "below that scale the original throws)",
                      "finite inputs (no NaN/inf)",
                      "solver and sqrt oracle contracts of DESIGN 1.3 (validated on every replicated call)"],
-        extra={"translator_table_sites": None if tab is None else len(tab["branches"])})
+        extra={"translator_table_sites": None if tab is None else len(tab["branches"]),
+               "model_cache_hits": STATS_CACHE["hits"]})
 
 
 def small_exhaustive():
@@ -1070,7 +1442,7 @@ def small_exhaustive():
 
 
 def replay(ctx, case):
-    exe = ctx.cpp("harness/c05.cpp", extra=["-O0", "-g0"])
+    exe = ctx.cpp("harness/c05.cpp", extra=CPP_EXTRA)
     tab = regen_table(ctx)
     mexe = ctx.extract()
     c = unslim(case)
@@ -1078,7 +1450,7 @@ def replay(ctx, case):
     if c.get("stream") == "f7":
         probe_f7(ctx, exe, mexe, tab, stats)
     else:
-        evaluate_all(ctx, exe, mexe, tab, [c], stats, shrink=False)
+        evaluate_all(ctx, exe, mexe, tab, [c], stats, shrink=False, scale=False)
     for cs, why in ctx._violations[:3]:
         print("  " + str(why)[:600])
     for u in ctx._unshown[:3]:
